@@ -6,6 +6,7 @@ import RedisVerif.Model.SimCluster
     SN <n> <causal01> <auto01> <depth> <limit> <cap> <router>*n → ok        (router as in `MN`)
     SX <i> SET <key> <value> <ex|->                             → d=<deltas> pend=<n> <last delta id|->
     SX <i> DEL <n> <key>*                                       → d=<deltas> pend=<n> <last delta id|->
+    SXC <i> <key> <value> NX|XX                                 → applied=<b> d=<deltas> pend=<n>   (conditional SET, `Sim.stepX currentGate`)
     SG <n> (<lost01> <delay>)*                                  → q=<n> [<flights>] pend=<total>
     SA <ms>                                                     → now=<t>
     SP <a> <b> | SH <a> <b> | SY <a> <b> | SF                   → syncs=<n> parts=<n>
@@ -85,6 +86,16 @@ def sstep (st : SState) (line : String) : SState × String :=
       let last := if nd > 0 then (match c'.issued.getLast? with | some m => C06Msg.showId m | none => "-") else "-"
       ({ st with s := c' }, s!"d={nd} pend={pend} {last}")
     | none => (st, "bad-op")
+  | ["SXC", i, k, v, o] =>
+    match i.toNat?, runP strKey k, runP bytesTok v with
+    | some i, some k, some v =>
+      if o != "NX" && o != "XX" then (st, "bad-op") else
+      let app := match st.s.nodes[i]? with | some nd => condApplies nd.kv k (o == "NX") | none => false
+      let c' := st.s.stepX currentGate AE.currentHasher st.cfg (.setCond i k v (o == "NX"))
+      let nd := c'.issued.length - st.s.issued.length
+      let pend := match c'.nodes[i]? with | some x => toString x.ps.pending.length | none => "-"
+      ({ st with s := c' }, s!"applied={C06.b01 app} d={nd} pend={pend}")
+    | _, _, _ => (st, "bad-op")
   | "SG" :: _ =>
     let p : P (List (Bool × Nat)) := do
       expect "SG"
@@ -136,7 +147,7 @@ def sstep (st : SState) (line : String) : SState × String :=
 def stepAll (st : SState) (line : String) : SState × String :=
   match tokens line with
   | t :: _ =>
-    if t == "SN" || t == "SX" || t == "SG" || t == "SA" || t == "SP" || t == "SH" || t == "SY" || t == "SF"
+    if t == "SN" || t == "SX" || t == "SXC" || t == "SG" || t == "SA" || t == "SP" || t == "SH" || t == "SY" || t == "SF"
         || t == "SS" || t == "SK" then sstep st line
     else
       let r := C06Msg.stepAll st.m line
